@@ -4,7 +4,7 @@ CONSTANTS
   MaxEmptyReads = 100
   NilCloseGuarded = TRUE
   MaxContent = 2
-  MaxChunks = 3
+  MaxChunks = 2
   MaxChunk = 2
   ReadSizes = {0, 1, 2, 4096}
   MaxHist = 4
